@@ -47,8 +47,11 @@ def step (toks : List String) (impl : String) : Res :=
   | some "procoffer" =>
     let limit := kvNat toks "limit"
     let kind := kv toks "kind"
-    let first := if kind == "all_declined" then "ok" else "err"
-    { model := s!"{first} free={limit}", monitor := if kv it "free" != toString limit then ["slot_returned_" ++ kind] else [],
+    let first := if kind == "all_declined" || kind == "accepted_in_progress" then "ok" else "err"
+    -- while an accepted transfer is in progress its slot is held (Pm: holding counts it); otherwise it is back
+    let expectFree := if kind == "accepted_in_progress" then limit - 1 else limit
+    { model := s!"{first} free={expectFree}",
+      monitor := if kv it "free" != toString expectFree then [if kind == "accepted_in_progress" then "slot_held_while_transfer_in_progress" else "slot_returned_" ++ kind] else [],
       tags := ["procoffer", kind, "v" ++ kv toks "v"] }
   | some "offersilent" =>
     let limit := kvNat toks "limit"
